@@ -355,7 +355,8 @@ inductive SrvErr where
   | decode (e : Err)
   /-- `fmt.Errorf("decode reqpacket fail, error version: %d", …)` -/
   | version (v : Int)
-  /-- the request version is TUP or JSON: outside this model -/
+  /-- the request version is not TARS (TUP, JSON, or — for a function without in parameters — any
+      other number): outside this model -/
   | notModelled
   /-- the generated code panicked (`make` with a negative length, …): `Invoke`'s `CheckPanic`
       recovers, nothing is answered; what filters record while the panic unwinds is not modelled -/
@@ -452,7 +453,7 @@ def serverCore (vs : Variants) (env : Env) (sreg : ServerReg) (iface : Iface) (r
     else ([], none, rsp0)
   match err with
   | some (.panic site) => (tr, .panicked site)
-  | some .notModelled => (tr, .notModelled "TUP / JSON request")
+  | some .notModelled => (tr, .notModelled "request version is not TARS")
   | _ =>
     let rsp2 : RspPacket :=
       match err with
@@ -617,12 +618,33 @@ def optsMaps (opts : List (Option StrMap)) : Option StrMap × Option StrMap :=
   | [c, s] => (c, s)
   | _ => (none, none)
 
+/-- the copy-back block of the generated proxy:
+    ```go
+    if len(opts) == 1 { <contextMap := tarsResp.Context> }
+    else if len(opts) == 2 { <contextMap := tarsResp.Context>; <statusMap := tarsResp.Status> }
+    ```
+    returns what the caller's context / status maps hold afterwards -/
+def copyBackAll (opts : List (Option StrMap)) (rctx rst : StrMap) :
+    Except String (Option StrMap × Option StrMap) :=
+  match opts with
+  | [c] =>
+    match copyBack c rctx with
+    | .error site => .error site
+    | .ok c' => .ok (c', none)
+  | [c, s] =>
+    match copyBack c rctx with
+    | .error site => .error site
+    | .ok c' =>
+      match copyBack s rst with
+      | .error site => .error site
+      | .ok s' => .ok (c', s')
+  | _ => .ok (optsMaps opts)
+
 /-- the generated proxy after `TarsInvoke` returned nil (not one-way): read the return value (tag 0)
     and the out parameters (tag `k+1`) from `tarsResp.SBuffer` into `ret` and the caller's
     variables, then copy the response context / status back into the caller's maps -/
 def proxyFinish (env : Env) (sig : Sig) (args : List Val) (opts : List (Option StrMap))
     (resp : RspPacket) : Result :=
-  let (contextMap, statusMap) := optsMaps opts
   let fs := rspFields sig
   let olds := (sig.ret.map (zeroOf env)).toList ++ outVals sig.params args
   let r := Reader.mk0 resp.sBuffer
@@ -632,19 +654,9 @@ def proxyFinish (env : Env) (sig : Sig) (args : List Val) (opts : List (Option S
   | .ok vals =>
     let ret := if sig.ret.isSome then vals.head? else none
     let outs := if sig.ret.isSome then vals.drop 1 else vals
-    match opts with
-    | [_] =>
-      match copyBack contextMap resp.context with
-      | .error site => .panicked site
-      | .ok c => .returned none ⟨ret, outs, c, statusMap⟩
-    | [_, _] =>
-      match copyBack contextMap resp.context with
-      | .error site => .panicked site
-      | .ok c =>
-        match copyBack statusMap resp.status with
-        | .error site => .panicked site
-        | .ok s => .returned none ⟨ret, outs, c, s⟩
-    | _ => .returned none ⟨ret, outs, contextMap, statusMap⟩
+    match copyBackAll opts resp.context resp.status with
+    | .error site => .panicked site
+    | .ok (c, s) => .returned none ⟨ret, outs, c, s⟩
 
 /-- the request packet the proxy function hands to the transport: every parameter (tag `k+1`) in
     the buffer, packet type 1 for the one-way variant, the maps of `opts` -/
